@@ -58,6 +58,7 @@ pub struct Mon {
     remove_kills: HashMap<usize, Vec<u64>>,
     dead_values: HashSet<u64>,
     panics_seen: u64,
+    pending: Vec<String>,
     any_error: bool,
     closed_ok: bool,
     clear_returned_clean: bool,
@@ -86,7 +87,7 @@ impl Mon {
             case, cfg, flags, item_size: item_size as i64,
             spec: HashMap::new(), val_key: HashMap::new(), val_cost: HashMap::new(), accepted: HashSet::new(),
             cb_count: HashMap::new(), overwritten: HashSet::new(), before_clear: HashSet::new(), cleared_ok: HashMap::new(), clear_epoch: 0, start_epoch: HashMap::new(), clear_on_closed: HashSet::new(), at_clear_call: HashMap::new(), started_after_close: HashSet::new(),
-            cur_op: HashMap::new(), sent_by: HashMap::new(), after_wait: Vec::new(), lookups_since_clear: 0, ring_carry: 0, drops_since_clear: 0, evictions_since_clear: 0, written_done: HashMap::new(), remove_kills: HashMap::new(), dead_values: HashSet::new(), panics_seen: crate::sched::PANICS.load(std::sync::atomic::Ordering::SeqCst),
+            cur_op: HashMap::new(), sent_by: HashMap::new(), after_wait: Vec::new(), lookups_since_clear: 0, ring_carry: 0, drops_since_clear: 0, evictions_since_clear: 0, written_done: HashMap::new(), remove_kills: HashMap::new(), dead_values: HashSet::new(), panics_seen: crate::sched::PANICS.load(std::sync::atomic::Ordering::SeqCst), pending: Vec::new(),
             any_error: false, closed_ok: false, clear_returned_clean: false, straddled: false, inserted_after_clear: false, hits: 0,
             prev: None, evicted_once: HashSet::new(), conf_seen: HashMap::new(), in_tick: false, tick_time: 0,
         }
@@ -94,7 +95,19 @@ impl Mon {
 
     fn hit(&mut self, prop: &str, msg: String) {
         self.hits += 1;
-        println!("MONITOR property={} case={} msg={}", prop, self.case, msg.replace(' ', "_"));
+        self.pending.push(format!("MONITOR property={} case={} msg={}", prop, self.case, msg.replace(' ', "_")));
+    }
+
+    /// prints the hits collected so far (a case that stalled is run again first: see `discard`)
+    pub fn flush(&mut self) {
+        for l in self.pending.drain(..) {
+            println!("{}", l);
+        }
+    }
+
+    /// drops the hits of an attempt that is going to be repeated
+    pub fn discard(&mut self) {
+        self.pending.clear();
     }
 
     fn entry<'a>(s: &'a CacheSnap<u64>, idx: u64) -> Option<&'a stretto::verif::EntrySnap<u64>> {
@@ -577,5 +590,11 @@ impl Mon {
 
     pub fn worker_alive_after_close(&mut self, which: &str) {
         self.hit("C12", format!("{} did not terminate after close() returned Ok", which));
+    }
+}
+
+impl Drop for Mon {
+    fn drop(&mut self) {
+        self.flush();
     }
 }
